@@ -13,6 +13,7 @@ from fractions import Fraction as Fr
 from common.framework import PropertyCheck
 import c19_fam as fam
 import c19_alias as alias
+import c19_life as life_
 from c19_fam import F, fs, close
 
 EPS64 = 2.220446049250313e-16
@@ -31,6 +32,7 @@ SIG_CLAMP = "C19.relaxed.csample_clamped_probs"
 SIG_STNAN = "C19.straight_through.nan_at_neg_inf_logit"
 SIG_LOGSHAPE = "C19.direct.is_log_leading_axis"
 SIG_IMHNINF = "C19.imh.ninf_ratio_poisons_chain"
+SIG_STALE = "C19.distributions.lazy_attribute_stale_after_inplace_edit"
 
 
 def _dy(rng, lo, hi, den):
@@ -334,7 +336,14 @@ class C19(PropertyCheck):
             "several steps and to the same shape, operations continuing on the derived object; the object at the "
             "end against the Lean object model, a python oracle and a fresh construction of the expanded "
             "parameter; Relax/ST grids on a used-then-expanded proposal; SRSWOR with batched counts (equal or "
-            "not over the batch, broadcast, out_size default/max/beyond). "
+            "not over the batch, broadcast, out_size default/max/beyond). estimator OBJECTS with a life: every "
+            "estimator constructed with OTHER values of its documented public attributes (each attribute alone, pairs, "
+            "triples, all; control variate dropped / added), called 0-2 times, the attributes assigned, one object per "
+            "tuple or one for the whole sample space - against the model and exact mean for the values in force, a "
+            "freshly constructed estimator, the Lean object model on the same history (IS, IMH), and the shape of the "
+            "draws asked for; self_normalize=True against a python oracle; the tensor a relaxed / SRSWOR distribution "
+            "was constructed from edited in place after operations that cache derived attributes (fresh twins of the "
+            "old and of the new values). "
             "SRSWOR: all (total, given) <= 6, every forced/free "
             "outcome pattern, genuine seeds up to total = 64 (257 thorough). "
             "binomial: every (n, k) with n <= 66 in both branches. non-trivial: sample space of >= 4 points "
@@ -351,6 +360,11 @@ class C19(PropertyCheck):
         "estimator families never carry a probability of exactly 0 through `probs=` (the theorems assume "
         "P(b) != 0; torch's clamp_probs cuts the gradient of log P there); a class of logit -inf is outside "
         "the sample space (never drawn, P = P' = 0) and the sample space handed to the model is the support",
+        "estimator objects: only documented public attributes are assigned, to values the constructor would accept "
+        "(the constructor's argument checks are not repeated by an assignment); a distribution's constructor tensor "
+        "edited in place must leave ONE distribution (the new or the old values) - torch's lazy_property convention "
+        "(a cached derived attribute is stale) is the known finding "
+        "C19.distributions.lazy_attribute_stale_after_inplace_edit",
         "a Bernoulli / LogisticBernoulli logit is finite (torch's own Bernoulli.log_prob is NaN at an "
         "infinite logit; arg_constraints say `real`); a categorical logit may be -inf",
         "where a class has logit -inf the relaxed distribution has no density (z_k = -inf almost surely): the "
@@ -823,7 +837,8 @@ class C19(PropertyCheck):
                         sp = _family(rng, which)
                         yield {"kind": "is", "proposal": sp, "layout": layout, "N": N, "fp": spelled(sp, layout),
                                "density": rng.choice(["same", same_shape(which, sp)]), "f": None,
-                               "sample_owned": rng.random() < 0.5, "is_log": rng.random() < 0.25}
+                               "sample_owned": rng.random() < 0.5, "is_log": rng.random() < 0.25,
+                               "self_normalize": rng.random() < 0.2}
                         if layout == "event" and N == 1:    # integrand = views of a table it keeps
                             sp = _family(rng, which)
                             M = fam.n_points(sp)
@@ -923,6 +938,199 @@ class C19(PropertyCheck):
                 case["cp"] = sq.next(None if coord is None else rng.randrange(len(case["theta"])),
                                      None if coord is None else len(case["theta"]))
             yield case
+        # ---- parameters edited IN PLACE between uses of one distribution object (sixth round): the tensor a
+        # distribution was constructed from is modified (an optimiser step), after 0-3 operations that may have
+        # cached a lazily derived attribute (`probs` of a `logits=` object: csample, a RelaxEstimator call,
+        # ...; `logits` of a `probs=` object: everything else; `log_partition` of the SRSWOR distribution:
+        # log_prob), before or after an `expand`; the object must still be ONE distribution (see
+        # `_pred_param_edit`)
+        for i in range(36 if not big else 300):
+            cls = ("lb", "gumbel", "lb")[i % 3]
+            par = rng.choice(["probs", "logits"])
+            pre = [rng.choice(RELAXED_OPS) for _ in range(rng.randint(0, 3))]
+            if i % 2 == 0:      # an operation that caches the OTHER attribute
+                pre.insert(rng.randint(0, len(pre)), rng.choice(["csample", "relax", "probs"] if par == "logits" else
+                                                                 ["logits", "rsample", "log_prob", "tlog_prob", "st"]))
+            if rng.random() < 0.3:
+                pre.insert(rng.randint(0, len(pre)), "expand")
+            post = [rng.choice(RELAXED_OPS + ["expand"]) for _ in range(rng.randint(0, 2))]
+            nexp = (pre + post).count("expand")
+            expand = [[], [2], [2, 3]][min(nexp, 2)] if nexp else rng.choice([None, [2]])
+            sample = rng.choice([[], [], [2]])
+            dtype = rng.choice(["float64", "float64", "float32"])
+            if cls == "lb":
+                shape = rng.choice([[], [2], [3], [2, 2], [1]])
+                pool = ([Fr(k, 16) for k in range(1, 16)] if par == "probs" else [Fr(k, 8) for k in range(-24, 25)])
+                n = prod(shape) * prod(expand or []) * prod(sample)
+                yield {"kind": "param_edit", "cls": "lb", "param": par, "shape": shape, "dtype": dtype,
+                       "values": [fs(rng.choice(pool)) for _ in range(prod(shape))],
+                       "new_values": [fs(rng.choice(pool)) for _ in range(prod(shape))],
+                       "history": pre + ["edit"] + post, "expand": expand, "sample": sample,
+                       "us": [fs(rng.choice(U_GRID[2:-3])) for _ in range(n)],
+                       "vs": [fs(rng.choice(U_GRID[2:-3])) for _ in range(n)]}
+            else:
+                V = rng.choice([2, 3])
+                batch = rng.choice([[], [2], [2, 2], [1]])
+                row = lambda: _logits(rng, V) if par == "logits" else _simplex(rng, V)
+                n = prod(batch) * prod(expand or []) * prod(sample)
+                yield {"kind": "param_edit", "cls": "gumbel", "param": par, "shape": batch + [V], "dtype": dtype,
+                       "values": [x for _ in range(prod(batch)) for x in row()],
+                       "new_values": [x for _ in range(prod(batch)) for x in row()],
+                       "history": pre + ["edit"] + post, "expand": expand, "sample": sample,
+                       "us": [[fs(rng.choice(G_GRID[3:8])) for _ in range(V)] for _ in range(n)],
+                       "vs": [[fs(rng.choice(G_GRID[3:8])) for _ in range(V)] for _ in range(n)],
+                       "ks": [rng.randrange(V) for _ in range(n)]}
+        for i in range(12 if not big else 100):
+            shape = rng.choice([[], [2], [3], [2, 2]])
+            nb = prod(shape)
+            tot = [rng.randint(1, 5) for _ in range(nb)]
+            giv = [rng.randint(0, t) for t in tot]
+            edit = rng.choice(["given", "given", "total"])
+            case = {"kind": "param_edit", "cls": "srswor", "edit": edit, "shape": shape, "total": tot, "given": giv,
+                    "out_size": max(tot) + rng.choice([0, 1]), "seed": rng.randrange(1 << 30)}
+            if edit == "given":
+                case["new_given"] = [rng.randint(0, t) for t in tot]
+            else:
+                case["new_total"] = [rng.randint(max(g, 1), max(tot)) for g in giv]
+            pre = [rng.choice(SRSWOR_OPS) for _ in range(rng.randint(0, 2))]
+            if i % 2 == 0:
+                pre.insert(rng.randint(0, len(pre)), rng.choice(["log_prob", "log_partition"]))
+            if rng.random() < 0.3:
+                pre.insert(rng.randint(0, len(pre)), "expand")
+            case["history"] = pre + ["edit"] + [rng.choice(SRSWOR_OPS + ["expand"]) for _ in range(rng.randint(0, 1))]
+            yield case
+        # ---- the estimator OBJECT's life cycle (sixth round).  Every stream above constructs an estimator
+        # and calls it once.  Here the observed call is made on an object with a history: constructed with
+        # OTHER values of some documented public attributes (`life.alt`; callbacks: affine images), called
+        # 0-2 times, the attributes then assigned (`est.mc_samples = 2`, `est.density = ...`, ...), and - with
+        # `reuse` - one object serving every tuple of the sample space (second, third, ... call).  Every
+        # attribute of every estimator on its own, a pure second call, random pairs / triples, all at once.
+        # The case is judged as before (model, exact mean over the sample space) for the attribute values in
+        # force, and against a freshly constructed estimator (bit-equal); the shape of the draws the call
+        # asks for is observed as well.
+        LIFE_FAMS = ["bern1", "bern2", "cat3", "onehot3", "cat2w", "onehot2"]
+        for _ in range(1 if not big else 6):
+            for kind in ("direct", "is"):
+                extra = [] if kind == "is" else [
+                    # a control variate taken away from an object constructed with one / given to an object
+                    # constructed without
+                    {"set": ["cv"], "warm": 1, "reuse": True, "cv": "drop"},
+                    {"set": ["cv", "cv_mean"], "warm": rng.choice([0, 1]), "reuse": False, "cv": "add"}]
+                for lf in life_.skeletons(rng, kind) + extra:
+                    which = rng.choice(LIFE_FAMS)
+                    layout = "batch" if which.startswith("bern") and rng.random() < 0.4 else "event"
+                    sp = _family(rng, which, edge=rng.random() < 0.1)
+                    M = fam.n_points(sp)
+                    N = rng.choice([1, 2])
+                    tab = (lambda: btables(sp)) if layout == "batch" else (lambda: _table(rng, M))
+                    lf = dict(lf, alt={"mc_samples": rng.choice([n for n in (1, 2, 3) if n != N]),
+                                       "proposal": same_shape(which, sp), "density": same_shape(which, sp)})
+                    if kind == "direct":
+                        touches_cv = "cv" in lf["set"] or "cv_mean" in lf["set"]
+                        cvmode = rng.choice(["cv", "cv", "none"] if touches_cv else ["none", "cv", "cv_detached"])
+                        if lf.get("cv"):
+                            cvmode = "none" if lf["cv"] == "drop" else "cv"
+                        case = {"kind": "direct", "dist": sp, "layout": layout, "N": N, "f": tab(),
+                                "c": None if cvmode == "none" else tab(),
+                                "cv_mean_detached": cvmode == "cv_detached", "life": lf}
+                        if cvmode == "none" and rng.random() < (0.5 if "is_log" in lf["set"] else 0.15):
+                            case["is_log"] = True
+                    else:
+                        case = {"kind": "is", "proposal": sp, "layout": layout, "N": N, "f": tab(),
+                                "density": rng.choice(["same", same_shape(which, sp)]), "life": lf}
+                        if rng.random() < (0.5 if "is_log" in lf["set"] else 0.15):
+                            case["is_log"] = True
+                        if rng.random() < (0.5 if "self_normalize" in lf["set"] else 0.15):
+                            case["self_normalize"] = True
+                    if rng.random() < 0.3:
+                        case["sample_owned"] = True
+                    yield case
+            nprop = 0
+            for lf in life_.skeletons(rng, "enumerate"):
+                which = rng.choice(["bern1", "bern2", "cat3", "onehot3", "cat2w"])
+                smaller = rng.random() < 0.5
+                if "proposal" in lf["set"]:
+                    # the first two: three classes, constructed over a proposal with another support
+                    nprop += 1
+                    if nprop <= 2:
+                        which, smaller = ("cat3", "onehot3")[nprop - 1], True
+                sp = _family(rng, which)
+                yield {"kind": "enumerate", "dist": sp, "is_log": rng.random() < (0.5 if "is_log" in lf["set"] else 0.15),
+                       "f": btables(sp) if which.startswith("bern") else _table(rng, fam.n_points(sp)),
+                       "life": dict(lf, alt={"proposal": same_shape(which, sp), "smaller": smaller})}
+            for lf in life_.skeletons(rng, "imh"):
+                which = rng.choice(["bern1", "bern2", "cat3", "onehot3"])
+                layout = "batch" if which.startswith("bern") and rng.random() < 0.4 else "event"
+                sp = _family(rng, which)
+                M = fam.n_points(sp)
+                kept, burn = rng.choice([1, 2, 3]), rng.choice([0, 0, 1, 2])
+                dens_life = bool({"density", "proposal"} & set(lf["set"]))
+                if dens_life:       # a chain long enough for a wrong log-ratio to change a decision
+                    kept, burn = 3, rng.choice([0, 1])
+                N = kept + burn
+                draws = [rng.randrange(M) for _ in range(N + 1)]
+                if dens_life:       # successive proposals differ
+                    for j in range(1, N + 1):
+                        while draws[j] == draws[j - 1]:
+                            draws[j] = rng.randrange(M)
+                case = {"kind": "imh", "proposal": sp, "layout": layout, "N": N, "burn_in": burn,
+                        "density": "same" if rng.random() < 0.6 else same_shape(which, sp),
+                        "init": rng.choice([None, rng.randrange(M)]), "init_lead": rng.random() < 0.5,
+                        "draws": draws,
+                        "f": btables(sp) if layout == "batch" else _table(rng, M),
+                        "is_log": rng.random() < (0.5 if "is_log" in lf["set"] else 0.15),
+                        "life": dict(lf, alt={"mc_samples": rng.choice([n for n in range(1, N + 3) if n != N]),
+                                              "burn_in": rng.randrange(N), "proposal": same_shape(which, sp),
+                                              "density": same_shape(which, sp),
+                                              "initial_sample": rng.choice(["none", rng.randrange(M)])})}
+                # (an object that goes on using the density / proposal it was constructed with decides
+                # accept / reject with other log-ratios: uniforms next to 1 make every such decision visible)
+                upool = us[-1:] if dens_life else us
+                if layout == "batch":
+                    case["us"] = [[fs(rng.choice(upool)) for _ in sp["theta"]] for _ in range(N)]
+                else:
+                    case["us"] = [fs(rng.choice(upool)) for _ in range(N)]
+                yield case
+            for lf in life_.skeletons(rng, "st"):
+                par = rng.choice(["probs", "logits"])
+                yield {"kind": "st_value", "param": par, "f": _table(rng, 4), "life": lf,
+                       "ks": [rng.randint(1, 15) for _ in range(rng.choice([1, 2]))]}
+            for lf in life_.skeletons(rng, "relax"):
+                par = rng.choice(["probs", "logits"])
+                shape = rng.choice([[], [1], [2]])
+                n = prod(shape)
+                cvkind = rng.choice(["smooth", "rebar"])
+                if cvkind == "rebar" and rng.random() < 0.7:
+                    lf = dict(lf, cv_coef=True)
+                yield {"kind": "relax_value", "param": par, "shape": shape, "life": lf,
+                       "ks": [rng.choice([4, 8, 12]) for _ in range(n)], "f": [_table(rng, 2) for _ in range(n)],
+                       "cvkind": cvkind,
+                       "cv": [fs(_dy(rng, -2, 2, 4)), fs(_dy(rng, -2, 2, 4)), fs(rng.choice([Fr(1, 2), Fr(1), Fr(2)]))]}
+            for i, lf in enumerate(life_.skeletons(rng, "relax")):
+                N = rng.choice([1, 2, 3])
+                lf = dict(lf, alt={"mc_samples": rng.choice([n for n in (1, 2, 3, 4) if n != N])})
+                cvc = [fs(_dy(rng, -2, 2, 4)), fs(_dy(rng, -2, 2, 4)), fs(_dy(rng, 1, 3, 4))]
+                # the library's REBAR control variates on every second life, constructed with other
+                # coefficients / integrand and edited in place before the observed call
+                cvkind = "rebar" if i % 4 in (1, 2) else "smooth"
+                if cvkind == "rebar":
+                    lf = dict(lf, cv_coef=True)
+                if i % 2 == 0:
+                    par = rng.choice(["probs", "logits"])
+                    yield {"kind": "relax_comb", "param": par, "N": N, "life": lf, "f": _table(rng, 2), "cv": cvc,
+                           "cvkind": cvkind,
+                           "value": fs(Fr(rng.randint(1, 15), 16) if par == "probs" else _dy(rng, -2, 2, 8)),
+                           "us": [fs(Fr(rng.randint(1, 63), 64)) for _ in range(N)],
+                           "vs": [fs(Fr(rng.randint(1, 63), 64)) for _ in range(N)]}
+                else:
+                    V = rng.choice([2, 3])
+                    gpar = rng.choice(["logits", "probs"])
+                    yield {"kind": "relax_comb", "dist": "gumbel", "param": gpar, "life": lf,
+                           "theta": _logits(rng, V) if gpar == "logits" else _simplex(rng, V), "N": N,
+                           "coord": rng.randrange(V), "f": _table(rng, V), "cv": cvc,
+                           "cvkind": cvkind,
+                           "us": [[fs(Fr(rng.randint(1, 63), 64)) for _ in range(V)] for _ in range(N)],
+                           "vs": [[fs(Fr(rng.randint(1, 63), 64)) for _ in range(V)] for _ in range(N)]}
         # malformed constructions: the documented ValueError
         for cls in ("LogisticBernoulli", "GumbelOneHotCategorical"):
             for how in ("neither", "both", "scalar"):
@@ -1043,19 +1251,35 @@ class C19(PropertyCheck):
                  f"{fam_short(a)} vs fresh {fam_short(b)}", None)]
 
     # ---------------------------------------------------------------- estimators: common
-    def _run_tuples(self, dist, params, pts, N, make_est, vec=False, owned=False):
+    def _run_tuples(self, dist, params, pts, N, make_est, vec=False, owned=False, reuse=False):
         """call the estimator once per tuple of Omega^N with proposal.sample replaced.  vec: the result is
         a vector (batch layout): per tuple a list over its elements of [value, gradient].  owned: the
-        proposal hands out a tensor it KEEPS (no copy); `self._untouched` says whether it was left alone"""
+        proposal hands out a tensor it KEEPS (no copy); `self._untouched` says whether it was left alone.
+        reuse: ONE estimator object (the first `make_est()`) serves every tuple.  `make_est` runs with the
+        stub in place (a life's earlier calls draw from it); `self._asked`: the distinct sample shapes the
+        observed calls asked the proposal for"""
         import torch
         out = []
         self._untouched = True
         want = [pts[0].numel()] if vec else []
         self._shapes = {"want": want, "seen": []}
+        self._asked = []
+        est = None
         for t in fam.tuples(len(pts), N):
             b = torch.stack([pts[i] for i in t])
-            with fam.patched(dist, sample=lambda shape=(), _b=b: _b if owned else _b.clone()):
-                v = make_est()()
+            asked = []
+
+            def sample(shape=(), _b=b):
+                asked.append([int(x) for x in shape])
+                return _b if owned else _b.clone()
+            with fam.patched(dist, sample=sample):
+                if est is None or not reuse:
+                    est = make_est()
+                    del asked[:]
+                v = est()
+            for a in asked:
+                if a not in self._asked:
+                    self._asked.append(a)
             if not torch.equal(b, torch.stack([pts[i] for i in t])):
                 self._untouched = False
             if list(v.shape) not in self._shapes["seen"]:
@@ -1075,6 +1299,54 @@ class C19(PropertyCheck):
                 out.append([one(v[j]) for j in range(v.numel())])
             else:
                 out.append(one(v))
+        return out
+
+    # ---------------------------------------------------------------- the estimator object's life cycle
+    @staticmethod
+    def _alt_n(n, alt):
+        """a number of Monte-Carlo samples other than n"""
+        return alt if isinstance(alt, int) and alt >= 1 and alt != n else n + 1
+
+    def _alt_dist(self, spec, like, layout, pts):
+        """the proposal / density an object is constructed with before the attribute is assigned: another
+        member of the same family (own parameter tensor); as a proposal it hands out the first point"""
+        import torch
+        d = fam.build(self._alt_spec(spec, like), True, layout=layout)[0]
+        d.sample = lambda shape=(): torch.stack([pts[0]] * (list(shape) or [1])[0])
+        return d
+
+    def _alt_spec(self, spec, like):
+        return spec if isinstance(spec, dict) and spec.get("fam") == like["fam"] and \
+            fam.n_points(spec) == fam.n_points(like) else dict(like, param="probs", theta=self._uniform_theta(like))
+
+    @staticmethod
+    def _uniform_theta(like):
+        th = like["theta"]
+        if like["fam"] == "cat2":
+            return [["1/2" if len(r) == 2 else "1/3"] * len(r) for r in th]
+        return ["1/2"] * len(th) if like["fam"] == "bern" else [fs(Fr(1, len(th)))] * len(th)
+
+    def _pred_life(self, name, case, a, b, asked=None, want_asked=None):
+        """an object with a history (constructed with other attribute values, called, attributes assigned)
+        against a freshly constructed estimator with the attribute values in force, on the same draws"""
+        lf = case.get("life")
+        out = []
+        if asked is not None and asked != want_asked:
+            out.append((f"{name}{life_.describe(lf)}: the call drew samples of shape {asked}, expected one draw of "
+                        f"shape {want_asked} (mc_samples as it is at the time of the call)", None))
+        def same(x, y):
+            # (1e-12, not bit-equality: a proposal whose lazily cached `probs` was computed during an earlier
+            # call hands autograd the same graph with its nodes created in another order - the gradient's
+            # last bit may differ)
+            if isinstance(x, list) and isinstance(y, list):
+                return len(x) == len(y) and all(same(p, q) for p, q in zip(x, y))
+            if isinstance(x, str) and isinstance(y, str):
+                return x == y or (x not in SPECIALS and y not in SPECIALS and close(x, y, 1e-12))
+            return x == y
+        if lf and b is not None and not same(a, b):
+            out.append((f"{name}{life_.describe(lf)} returns {fam_short(a)}; a freshly constructed estimator with "
+                        f"the same attribute values returns {fam_short(b)} on the same draws (the value of a call "
+                        f"must depend on the attributes as they are at the time of the call)", None))
         return out
 
     def _cmp_batch(self, per, models, M, N, gtols):
@@ -1181,15 +1453,36 @@ class C19(PropertyCheck):
         logs = {"f": [], "c": []}
         self._kept_reset()
 
-        def run(twin):
+        lf = case.get("life")
+        N = case["N"]
+
+        def run(twin, lf=lf):
             func = self._callback(case, sp, "f", twin, logs["f"])
             cv = self._callback(case, sp, "c", twin, logs["c"])
-            return self._run_tuples(dist, [param], spts, case["N"],
-                                    lambda: DirectEstimator(dist, func, case["N"], cv, cv_mean,
-                                                            bool(case.get("is_log"))), vec=batch,
-                                    owned=bool(case.get("sample_owned")))
+            final = {"proposal": dist, "func": func, "mc_samples": N, "cv": cv, "cv_mean": cv_mean,
+                     "is_log": bool(case.get("is_log"))}
+
+            def make():
+                if not lf:
+                    return DirectEstimator(dist, func, N, cv, cv_mean, final["is_log"])
+                al = lf.get("alt", {})
+                alt = {"proposal": self._alt_dist(al.get("proposal"), sp, case.get("layout", "event"), spts),
+                       "func": life_.affine(func, -2.0, 3.0), "mc_samples": self._alt_n(N, al.get("mc_samples")),
+                       "is_log": not final["is_log"]}
+                if cv is None:      # constructed WITH a control variate, which is then taken away
+                    alt["cv"] = life_.affine(func, 0.5, -1.0)
+                    alt["cv_mean"] = torch.full_like(dist.log_prob(spts[0]), 0.125)
+                elif lf.get("cv") == "add":     # constructed WITHOUT a control variate, which is then given
+                    alt["cv"] = alt["cv_mean"] = None
+                else:
+                    alt["cv"] = life_.affine(cv, 1.5, 0.25)
+                    alt["cv_mean"] = cv_mean.detach() * 0.5 + 1.0
+                return life_.build(DirectEstimator, ["proposal", "func", "mc_samples", "cv", "cv_mean", "is_log"],
+                                   final, alt, self._direct_life(lf, cv is None))
+            return self._run_tuples(dist, [param], spts, N, make, vec=batch,
+                                    owned=bool(case.get("sample_owned")), reuse=bool(lf and lf.get("reuse")))
         per = run(False)
-        untouched, shapes = self._untouched, self._shapes
+        untouched, shapes, asked = self._untouched, self._shapes, self._asked
         lps = dist.log_prob(torch.stack(pts)).detach()
         if batch:
             psum = [fs(x) for x in (lps[0].exp() + lps[-1].exp()).tolist()]
@@ -1197,15 +1490,47 @@ class C19(PropertyCheck):
             psum = fs(lps.exp().sum().item())
         return {"per_tuple": per, "psum": psum, "aliased": self._alias_obs(case, logs),
                 "samples_untouched": untouched, "tables_untouched": self._kept_ok(), "shapes": shapes,
+                "asked": asked, "fresh": run(False, None) if lf else None,
                 "twin": run(True) if self._has_twin(case) else None}
+
+    @staticmethod
+    def _direct_life(lf, no_cv):
+        """a DirectEstimator that ends without a control variate can only be CONSTRUCTED with one if it is
+        given a `cv_mean` too: the two attributes are then assigned together"""
+        if no_cv and "cv" in lf["set"] and "cv_mean" not in lf["set"]:
+            return dict(lf, set=lf["set"] + ["cv_mean"])
+        return lf
 
     def _pred_log_tuples(self, name, case, sp, per, logw):
         """is_log=True (func = log f; no control variate): on every tuple the returned value is the log of
         what the is_log=False estimator returns for f = exp(func): log mean_n exp(func(b_n)) for the direct
-        estimator, log sum_n exp(func(b_n) + logw(b_n)) / N for importance sampling (logw = log P - log Q)"""
+        estimator, log sum_n exp(func(b_n) + logw(b_n)) / N for importance sampling (logw = log P - log Q).
+        self_normalize=True (importance sampling): the weights are exp(logw(b_n)) / sum_m exp(logw(b_m))
+        instead of exp(logw(b_n)) / N - the documented self-normalised estimate sum_n w_n f(b_n) (biased:
+        only its VALUE on every tuple is judged), in log space with is_log"""
         ft = self._tables(case, sp, "f")
         sup = fam.support(sp)
         fails = []
+        if case.get("self_normalize"):
+            for ti, t in enumerate(fam.tuples(len(sup), case["N"])):
+                pts = [sup[i] for i in t]
+                for j in range(len(ft) if self._batch(case) else 1):
+                    if self._batch(case):
+                        vals, lw, g = [ft[j][(i >> j) & 1] for i in pts], [logw[j][(i >> j) & 1] for i in pts], \
+                            per[ti][j][0]
+                    else:
+                        vals, lw, g = [ft[i] for i in pts], [logw[i] for i in pts], per[ti][0]
+                    m = max(lw)
+                    ws = [math.exp(x - m) for x in lw]
+                    if case.get("is_log"):
+                        want = self._lme(vals, lw) - (m + math.log(sum(ws)))
+                    else:
+                        want = sum(w * float(F(v)) for w, v in zip(ws, vals)) / sum(ws)
+                    if not self._lclose(g, want):
+                        fails.append((f"{name}(self_normalize=True{', is_log=True' if case.get('is_log') else ''}): "
+                                      f"tuple {t} element {j}: {g} is not the self-normalised estimate "
+                                      f"sum_n w_n f(b_n), w = softmax(log P - log Q), = {want!r}", None))
+            return fails[:4]
         for ti, t in enumerate(fam.tuples(len(sup), case["N"])):
             pts = [sup[i] for i in t]
             if self._batch(case):
@@ -1268,6 +1593,8 @@ class C19(PropertyCheck):
         P, _ = fam.exact_probs(case["dist"])
         P = [P[i] for i in fam.support(case["dist"])]
         fails = self._pred_twin("DirectEstimator", case, impl["per_tuple"], impl["twin"])
+        fails += self._pred_life("DirectEstimator", case, impl["per_tuple"], impl.get("fresh"), impl.get("asked"),
+                                 [[case["N"]]])
         fails += self._pred_untouched("DirectEstimator(is_log=True)" if case.get("is_log") else "DirectEstimator",
                                       impl)
         if case.get("is_log"):
@@ -1316,28 +1643,47 @@ class C19(PropertyCheck):
         logs = {"f": []}
         self._kept_reset()
 
-        def run(twin):
+        lf = case.get("life")
+        N = case["N"]
+
+        def run(twin, lf=lf):
             func = self._callback(case, sp, "f", twin, logs["f"])
-            return self._run_tuples(dist, params, pts, case["N"],
-                                    lambda: ImportanceSamplingEstimator(dist, func, case["N"], dens, False,
-                                                                        bool(case.get("is_log"))), vec=batch,
-                                    owned=bool(case.get("sample_owned")))
+            final = {"proposal": dist, "func": func, "mc_samples": N, "density": dens,
+                     "self_normalize": bool(case.get("self_normalize")), "is_log": bool(case.get("is_log"))}
+
+            def make():
+                if not lf:
+                    return ImportanceSamplingEstimator(dist, func, N, dens, final["self_normalize"], final["is_log"])
+                al = lf.get("alt", {})
+                alt = {"proposal": self._alt_dist(al.get("proposal"), sp, lay, pts),
+                       "func": life_.affine(func, -2.0, 3.0), "mc_samples": self._alt_n(N, al.get("mc_samples")),
+                       "self_normalize": not final["self_normalize"], "is_log": not final["is_log"],
+                       # another density of the family; the proposal itself where the case has its own density
+                       "density": self._alt_dist(al.get("density"), sp, lay, pts)
+                       if case["density"] == "same" or isinstance(al.get("density"), dict) else dist}
+                return life_.build(ImportanceSamplingEstimator,
+                                   ["proposal", "func", "mc_samples", "density", "self_normalize", "is_log"],
+                                   final, alt, lf)
+            return self._run_tuples(dist, params, pts, N, make, vec=batch,
+                                    owned=bool(case.get("sample_owned")), reuse=bool(lf and lf.get("reuse")))
         per = run(False)
-        return {"per_tuple": per, "aliased": self._alias_obs(case, logs), "samples_untouched": self._untouched,
-                "tables_untouched": self._kept_ok(), "shapes": self._shapes,
-                "twin": run(True) if self._has_twin(case) else None}
+        out = {"per_tuple": per, "aliased": self._alias_obs(case, logs), "samples_untouched": self._untouched,
+               "tables_untouched": self._kept_ok(), "shapes": self._shapes, "asked": self._asked}
+        out["fresh"] = run(False, None) if lf else None
+        out["twin"] = run(True) if self._has_twin(case) else None
+        return out
 
     def _is_elem_cases(self, case):
         sp = case["proposal"]
         ft = self._tables(case, sp, "f")
-        return [dict({k: v for k, v in case.items() if k not in ("layout", "fp")},
+        return [dict({k: v for k, v in case.items() if k not in ("layout", "fp", "life")},
                      proposal=fam.element(sp, j), f=ft[j],
                      density="same" if case["density"] == "same" else fam.element(case["density"], j))
                 for j in range(len(sp["theta"]))]
 
     def _req_is(self, case):
-        if case.get("is_log"):
-            return None
+        if case.get("is_log") or case.get("self_normalize"):
+            return None         # not modelled: python oracle in the predicate (values only)
         if self._batch(case):
             return {"op": "c19.multi", "case": {"reqs": [self._req_is(c) for c in self._is_elem_cases(case)]}}
         sp = case["proposal"]
@@ -1347,6 +1693,22 @@ class C19(PropertyCheck):
         ft = self._tables(case, sp, "f")
         pts = [{"q": fs(Q[i]), "dq": fs(dQ[i][0]), "p": fs(P[i]), "dp": [fs(x) for x in dP[i]],
                 "f": ft[i]} for i in fam.support(sp)]
+        lf = case.get("life")
+        if lf:
+            # the object model run on the SAME history: what the object is constructed with (`*0`: the
+            # alternatives of `_impl_is`), the earlier calls, the assignments, then one call per tuple
+            al = lf.get("alt", {})
+            Q0, _ = fam.exact_probs(self._alt_spec(al.get("proposal"), sp))
+            P0, _ = fam.exact_probs(self._alt_spec(al.get("density"), sp))
+            for d, i in zip(pts, fam.support(sp)):
+                d.update(q0=fs(Q0[i]), p0=fs(P0[i]), f0=fs(3 - 2 * F(ft[i])))
+            st = set(lf["set"])
+            return {"op": "c19.life_is", "case": {
+                "N": case["N"], "K": fam.n_params(sd), "points": pts, "warm": lf.get("warm", 0), "set": lf["set"],
+                "ctor": {"mc_samples": self._alt_n(case["N"], al.get("mc_samples")) if "mc_samples" in st
+                         else case["N"], "func": "func" in st, "density": "density" in st,
+                         "proposal": "proposal" in st, "self_normalize": "self_normalize" in st,
+                         "is_log": "is_log" in st}}}
         return {"op": "c19.is", "case": {"N": case["N"], "K": fam.n_params(sd), "points": pts}}
 
     def _split_is(self, case, per):
@@ -1385,8 +1747,10 @@ class C19(PropertyCheck):
         Q, _ = fam.exact_probs(case["proposal"])
         Q = [Q[i] for i in fam.support(case["proposal"])]
         fails = self._pred_twin("ImportanceSamplingEstimator", case, impl["per_tuple"], impl["twin"])
+        fails += self._pred_life("ImportanceSamplingEstimator", case, impl["per_tuple"], impl.get("fresh"),
+                                 impl.get("asked"), [[case["N"]]])
         fails += self._pred_untouched("ImportanceSamplingEstimator", impl)
-        if case.get("is_log"):
+        if case.get("is_log") or case.get("self_normalize"):
             import torch
             lay = case.get("layout", "event")
             dq, _, pts = fam.build(case["proposal"], False, layout=lay)
@@ -1431,15 +1795,32 @@ class C19(PropertyCheck):
         from pydrobert.torch.estimators import EnumerateEstimator
         sp = case["dist"]
         logs = {"f": []}
+        lf0 = case.get("life")
+        is_log = bool(case.get("is_log"))
+
+        def make(dist, func, layout, pts, lf):
+            """the estimator object (with its life, if the case has one); -> (estimator, calls to make)"""
+            final = {"proposal": dist, "func": func, "is_log": is_log}
+            if not lf:
+                return EnumerateEstimator(dist, func, is_log), 1
+            alt = {"proposal": self._alt_dist(lf.get("alt", {}).get("proposal"), sp, layout, pts),
+                   "func": life_.affine(func, -2.0, 3.0), "is_log": not is_log}
+            V = len(sp["theta"])
+            if lf.get("alt", {}).get("smaller") and sp["fam"] in ("cat", "onehot") and V >= 3:
+                # ... whose support is another set of points (one class fewer)
+                alt["proposal"] = fam.build(dict(sp, param="probs", theta=[fs(Fr(1, V - 1))] * (V - 1)))[0]
+            return life_.build(EnumerateEstimator, ["proposal", "func", "is_log"], final, alt, lf), \
+                (2 if lf.get("reuse") else 1)
         if sp["fam"] == "bern":
             # torch's Independent cannot enumerate: a plain Bernoulli (batch shape (n,)) whose support is
             # enumerated for all elements in parallel; the estimate is the vector of E f_j
             bc = dict(case, layout="batch")
             dist, param, pts = fam.build(sp, layout="batch")
 
-            def run(twin):
-                v = EnumerateEstimator(dist, self._callback(bc, sp, "f", twin, logs["f"]),
-                                       bool(case.get("is_log")))()
+            def run(twin, lf=lf0):
+                est, calls = make(dist, self._callback(bc, sp, "f", twin, logs["f"]), "batch", pts, lf)
+                for _ in range(calls):      # reuse: the observed call is the second one on the object
+                    v = est()
                 if list(v.shape) != [len(sp["theta"])]:
                     raise ValueError(f"estimate of shape {list(v.shape)} for batch shape {[len(sp['theta'])]}")
                 out = []
@@ -1449,20 +1830,23 @@ class C19(PropertyCheck):
                 return out
             sup = dist.enumerate_support()
             return {"v": run(False), "twin": run(True) if self._has_twin(case) else None,
+                    "fresh": run(False, None) if lf0 else None,
                     "support_cols": [sorted(int(x) for x in col) for col in sup.t().tolist()],
                     "psum": [fs(x) for x in dist.log_prob(sup).exp().sum(0).tolist()],
                     "aliased": self._alias_obs(case, logs)}
 
         dist, param, pts = fam.build(sp)
 
-        def run(twin):
-            v = EnumerateEstimator(dist, self._callback(case, sp, "f", twin, logs["f"]),
-                                   bool(case.get("is_log")))().sum()
+        def run(twin, lf=lf0):
+            est, calls = make(dist, self._callback(case, sp, "f", twin, logs["f"]), "event", pts, lf)
+            for _ in range(calls):
+                v = est().sum()
             g, = torch.autograd.grad(v, [param], retain_graph=True)
             return [fs(v.item()), [fs(x) for x in g.reshape(-1).tolist()]]
         sup = dist.enumerate_support()
         idx = fam.index_fn(sp)(sup).tolist()
-        return {"v": run(False), "twin": run(True) if self._has_twin(case) else None, "support_idx": sorted(idx),
+        return {"v": run(False), "twin": run(True) if self._has_twin(case) else None,
+                "fresh": run(False, None) if lf0 else None, "support_idx": sorted(idx),
                 "psum": fs(dist.log_prob(sup).exp().sum().item()), "aliased": self._alias_obs(case, logs)}
 
     def _req_enumerate(self, case):
@@ -1500,6 +1884,7 @@ class C19(PropertyCheck):
 
     def _pred_enumerate(self, case, impl, model):
         fails = self._pred_twin("EnumerateEstimator", case, impl["v"], impl["twin"])
+        fails += self._pred_life("EnumerateEstimator", case, impl["v"], impl.get("fresh"))
         if case.get("is_log"):
             # is_log=True: log sum_b P(b) exp(func(b)), exactly (value only)
             sp = case["dist"]
@@ -1601,19 +1986,29 @@ class C19(PropertyCheck):
         owned = bool(case.get("sample_owned"))
         self._kept_reset()
 
-        def run(twin):
+        lf0 = case.get("life")
+        N, burn = case["N"], case["burn_in"]
+
+        def run(twin, lf=lf0):
             func = self._callback(case, sp, "f", twin, logs["f"])
             draws = list(case["draws"])
-            taken, asked = [], []
+            taken, asked, drawn = [], [], []
+            warm = [bool(lf)]
             pool = torch.stack(pts).clone()       # owned: the proposal hands out views of a pool it keeps
 
             def sample(shape=()):
+                if warm[0]:         # an earlier call of the object's life: not part of the script
+                    return pts[case["draws"][0]].unsqueeze(0).clone()
+                drawn.append([int(x) for x in shape])
                 i = draws.pop(0)
                 taken.append(i)
                 return pool[i].unsqueeze(0) if owned else pts[i].unsqueeze(0).clone()
 
             def rand(*a, **k):
-                asked.append([int(x) for x in (a[0] if len(a) == 1 and not isinstance(a[0], int) else a)])
+                shp = [int(x) for x in (a[0] if len(a) == 1 and not isinstance(a[0], int) else a)]
+                if warm[0]:
+                    return torch.full(shp, 0.5, dtype=torch.float64)
+                asked.append(shp)
                 return us.clone()
             init = keep = None
             if case["init"] is not None:
@@ -1621,21 +2016,91 @@ class C19(PropertyCheck):
                 if case.get("init_lead"):       # the documented second form: (1,) + batch + event shape
                     init = init.unsqueeze(0).clone()
                 keep = init.clone()
+            final = {"proposal": dist, "func": func, "mc_samples": N, "density": dens, "burn_in": burn,
+                     "initial_sample": init, "initial_sample_tries": 3, "is_log": bool(case.get("is_log"))}
+            order = ["proposal", "func", "mc_samples", "density", "burn_in", "initial_sample",
+                     "initial_sample_tries", "is_log"]
             with fam.patched(dist, sample=sample), fam.torch_patched(rand=rand):
-                est = IMH(dist, func, case["N"], dens, case["burn_in"], init, 3, bool(case.get("is_log")))
+                if not lf:
+                    est = IMH(**final)
+                else:
+                    al = lf.get("alt", {})
+                    n0, b0, ai = self._imh_alt(case)
+                    ai = None if ai is None else pts[ai].unsqueeze(0).clone()
+                    adist = self._alt_dist(al.get("proposal"), sp, lay, pts)
+                    adist.sample = sample
+                    alt = {"proposal": adist, "func": life_.affine(func, -2.0, 3.0), "mc_samples": n0,
+                           "density": self._alt_dist(al.get("density"), sp, lay, pts) if case["density"] == "same"
+                           else dist, "burn_in": b0, "initial_sample": ai, "initial_sample_tries": 1,
+                           "is_log": not final["is_log"]}
+                    est = life_.build(IMH, order, final, alt, lf)
+                warm[0] = False
                 v = est()
+                if lf and lf.get("reuse"):       # and once more: the script is played again
+                    draws[:] = list(case["draws"])
+                    del taken[:], asked[:], drawn[:]
+                    v = est()
             want = [len(sp["theta"])] if batch else []
             if list(v.shape) != want:
                 raise ValueError(f"estimate of shape {list(v.shape)}, expected {want}")
             return {"v": [fs(x) for x in v.tolist()] if batch else fs(v.item()), "consumed": len(taken),
-                    "requires_grad": bool(v.requires_grad), "rand_shapes": asked,
+                    "requires_grad": bool(v.requires_grad), "rand_shapes": asked, "drawn": drawn,
                     "samples_untouched": bool(torch.equal(pool, torch.stack(pts))),
                     "init_untouched": True if init is None else bool(torch.equal(init, keep))}
         out = run(False)
         out["tables_untouched"] = self._kept_ok()
         out["aliased"] = self._alias_obs(case, logs)
         out["twin"] = run(True) if self._has_twin(case) else None
+        out["fresh"] = run(False, None) if lf0 else None
         return out
+
+    def _imh_alt(self, case):
+        """the numbers an IMH object with a life is CONSTRUCTED with: (mc_samples, burn_in, index of the
+        initial_sample point or None).  The constructor checks burn_in < mc_samples: every object on the
+        way is valid"""
+        lf, N, burn = case["life"], case["N"], case["burn_in"]
+        al = lf.get("alt", {})
+        n0 = N if "mc_samples" not in lf["set"] else max(self._alt_n(N, al.get("mc_samples")), burn + 1)
+        if n0 == N and "mc_samples" in lf["set"]:
+            n0 = N + 1
+        b0 = al.get("burn_in")
+        if not isinstance(b0, int) or not 0 <= b0 < min(N, n0) or b0 == burn:
+            b0 = (burn + 1) % min(N, n0)
+        ai = al.get("initial_sample", "none")
+        sup = fam.support(case["proposal"])
+        ai = None if ai in (None, "none") else sup[ai % len(sup)]
+        if case["init"] is None and ai is None:
+            ai = sup[0]
+        return n0, b0, ai
+
+    def _imh_life_req(self, case, base):
+        """the object model on the same history (event layout)"""
+        import torch
+        lf = case["life"]
+        st = set(lf["set"])
+        al = lf.get("alt", {})
+        sp = case["proposal"]
+        dist, dens, pts, _ = self._imh_setup(case)
+        allp = torch.stack(pts)
+        prop0 = self._alt_dist(al.get("proposal"), sp, "event", pts) if "proposal" in st else dist
+        if "density" in st:
+            dens0 = self._alt_dist(al.get("density"), sp, "event", pts) if case["density"] == "same" else dist
+        else:
+            dens0 = dens
+        r0 = (dens0.log_prob(allp) - prop0.log_prob(allp)).tolist()
+        fin = [r == r and abs(r) != float("inf") for r in r0]
+        n0, b0, ai = self._imh_alt(case)
+        ft = base["f"]
+        return {"op": "c19.life_imh", "case": dict(
+            base, is_log=bool(case.get("is_log")), ratios0=[fs(r) if ok else "0" for r, ok in zip(r0, fin)],
+            in_support0=fin, f0=[fs(3 - 2 * F(x)) for x in ft], warm=lf.get("warm", 0), set=lf["set"],
+            warm_draw=case["draws"][0], warm_lu=fs(math.log(0.5)), calls=2 if lf.get("reuse") else 1,
+            ctor={"mc_samples": n0 if "mc_samples" in st else case["N"],
+                  "burn_in": b0 if "burn_in" in st else case["burn_in"],
+                  "tries": 1 if "initial_sample_tries" in st else 3,
+                  "init": ai if "initial_sample" in st else case["init"],
+                  "ratio": bool({"density", "proposal"} & st), "func": "func" in st,
+                  "is_log": ("is_log" in st) != bool(case.get("is_log"))})}
 
     # ---- IMH, density vanishing on part of the proposal's support
     def _imh_support_setup(self, case):
@@ -1744,7 +2209,7 @@ class C19(PropertyCheck):
         ft = self._tables(case, sp, "f")
         out = []
         for j in range(len(sp["theta"])):
-            out.append(dict({k: v for k, v in case.items() if k not in ("layout", "fp")},
+            out.append(dict({k: v for k, v in case.items() if k not in ("layout", "fp", "life")},
                             proposal=fam.element(sp, j), f=ft[j],
                             density="same" if case["density"] == "same" else fam.element(case["density"], j),
                             init=None if case["init"] is None else (case["init"] >> j) & 1,
@@ -1758,11 +2223,13 @@ class C19(PropertyCheck):
         # a point outside the support (class with logit -inf: log P - log Q = -inf - -inf) is never
         # proposed; its ratio is a placeholder
         fin = [r == r and abs(r) != float("inf") for r in ratios]
-        return {"op": "c19.imh", "case": {
-            "ratios": [fs(r) if ok else "0" for r, ok in zip(ratios, fin)],
-            "f": self._tables(case, case["proposal"], "f"), "in_support": fin,
-            "N": case["N"], "burn_in": case["burn_in"], "tries": 3, "init": case["init"],
-            "draws": case["draws"], "lus": self._lus(case)}}
+        base = {"ratios": [fs(r) if ok else "0" for r, ok in zip(ratios, fin)],
+                "f": self._tables(case, case["proposal"], "f"), "in_support": fin,
+                "N": case["N"], "burn_in": case["burn_in"], "tries": 3, "init": case["init"],
+                "draws": case["draws"], "lus": self._lus(case)}
+        if case.get("life"):
+            return self._imh_life_req(case, base)
+        return {"op": "c19.imh", "case": base}
 
     def _imh_margin_ok(self, case):
         """every accept decision is clear of the tolerance (else: tie, skip equality)"""
@@ -1816,6 +2283,10 @@ class C19(PropertyCheck):
         fails = []
         tw = impl["twin"]
         fails += self._pred_twin("IndependentMetropolisHastingsEstimator", case, impl["v"], tw and tw["v"])
+        fr = impl.get("fresh")
+        fails += self._pred_life("IndependentMetropolisHastingsEstimator", case, impl["v"], fr and fr["v"])
+        if any(d != [1] for d in impl.get("drawn", [])):
+            fails.append((f"IMH asked the proposal for samples of shape {impl['drawn']}, expected [1] each", None))
         if impl["requires_grad"]:
             fails.append(("IMH estimate carries a gradient", None))
         fails += self._pred_untouched("IndependentMetropolisHastingsEstimator", impl)
@@ -2495,6 +2966,10 @@ class C19(PropertyCheck):
                     if pending:
                         done.insert(0, pending.pop())
                     d = d.expand(done + shape)
+                elif op == "edit":      # the tensor the FIRST object was constructed from is edited in place
+                    with torch.no_grad():
+                        self._edit_t.copy_(torch.tensor([fam.fl(x) for x in case["new_values"]], dtype=dt).reshape(
+                            self._edit_t.shape))
                 else:
                     self._relaxed_op(d, op, dt)
         if pending:
@@ -3279,13 +3754,29 @@ class C19(PropertyCheck):
         func = lambda b: t[(b.detach() * w).sum(-1).round().long()].unsqueeze(-1).expand(b.shape)
         logs = {"f": []}
 
-        def run(twin):
+        lf0 = case.get("life")
+
+        def run(twin, lf=lf0):
             f = func if case.get("fp") is None else self._callback(case, None, "f", twin, logs["f"])
-            with fam.torch_patched(rand=lambda *a, **k: U.clone()):
-                v = StraightThroughEstimator(d, f, U.shape[0])()
-            return [fs(x) for x in v.reshape(-1).tolist()], list(v.shape)
-        (v, shp), tw = run(False), (run(True) if self._has_twin(case) else None)
-        return {"v": v, "shape": shp, "twin": tw and tw[0], "aliased": self._alias_obs(case, logs)}
+            asked = []
+
+            def rand(*a, **k):
+                asked.append([int(x) for x in (a[0] if len(a) == 1 and not isinstance(a[0], int) else a)])
+                return U.clone()
+            final = {"proposal": d, "func": f, "mc_samples": U.shape[0], "is_log": False}
+            alt = {"proposal": LogisticBernoulli(probs=torch.full(tuple(d.batch_shape), 0.375, dtype=torch.float64)),
+                   "func": life_.affine(f, -2.0, 3.0), "is_log": True,
+                   "mc_samples": self._alt_n(U.shape[0], ((lf or {}).get("alt") or {}).get("mc_samples"))}
+            with fam.torch_patched(rand=rand):
+                est = life_.build(StraightThroughEstimator, ["proposal", "func", "mc_samples", "is_log"], final,
+                                  alt, lf)
+                for _ in range(2 if lf and lf.get("reuse") else 1):
+                    del asked[:]
+                    v = est()
+            return [fs(x) for x in v.reshape(-1).tolist()], list(v.shape), asked
+        (v, shp, asked), tw = run(False), (run(True) if self._has_twin(case) else None)
+        return {"v": v, "shape": shp, "twin": tw and tw[0], "aliased": self._alias_obs(case, logs),
+                "asked": asked, "want_asked": [list(U.shape)], "fresh": run(False, None)[0] if lf0 else None}
 
     def _st_exact(self, case):
         ks = case["ks"]
@@ -3307,6 +3798,8 @@ class C19(PropertyCheck):
 
     def _pred_st_value(self, case, impl, model):
         fails = self._pred_twin("StraightThroughEstimator", case, impl["v"], impl.get("twin"))
+        fails += self._pred_life("StraightThroughEstimator", case, impl["v"], impl.get("fresh"), impl.get("asked"),
+                                 impl.get("want_asked"))
         rep = self._prod(case.get("expand") or [])
         if case.get("fp") is not None:
             # an elementwise integrand x -> a x + c written as the spelling says: entry j estimates a p_j + c
@@ -3367,7 +3860,10 @@ class C19(PropertyCheck):
         wv = (torch.arange(1, n + 1, dtype=torch.float64) / n).reshape(shape)
         logs = {"f": [], "c": []}
 
-        def run(twin):
+        lf0 = case.get("life")
+
+        def run(twin, lf=lf0):
+            edit = None
             # affine integrand: also accepts relaxed values (REBAR); or the spelling `fp` (elementwise
             # x -> a x + c returning its argument / a view / a modified copy / a fresh tensor)
             func = lambda b: f0 + (f1 - f0) * b
@@ -3378,16 +3874,30 @@ class C19(PropertyCheck):
             elif case.get("cvkind") == "rebar":
                 from pydrobert.torch.modules import LogisticBernoulliRebarControlVariate
                 a, _, tau = [float(F(x)) for x in case["cv"]]
-                cv = LogisticBernoulliRebarControlVariate(func, tau, a)
+                cv, edit = life_.rebar(LogisticBernoulliRebarControlVariate, func, tau, a, lf)
             else:
                 base = self._cvfun(case["cv"])
                 cv = lambda z: base(z) * wv
-            with fam.torch_patched(rand=lambda *a, **kk: U.clone(), rand_like=lambda *a, **kk: Vv.clone()):
-                v = RelaxEstimator(d, func, U.shape[0], cv)()
-            return [[fs(x) for x in v.reshape(-1).tolist()], list(v.shape)]
-        (v, shp), tw = run(False), (run(True) if self._has_twin(case) else None)
+            asked = []
+
+            def rand(*a, **k):
+                asked.append([int(x) for x in (a[0] if len(a) == 1 and not isinstance(a[0], int) else a)])
+                return U.clone()
+            final = {"proposal": d, "func": func, "mc_samples": U.shape[0], "cv": cv, "is_log": False}
+            alt = {"proposal": LogisticBernoulli(probs=torch.full(tuple(d.batch_shape), 0.375, dtype=torch.float64)),
+                   "func": life_.affine(func, -2.0, 3.0), "cv": life_.affine(cv, 1.5, 0.25), "is_log": True,
+                   "mc_samples": self._alt_n(U.shape[0], ((lf or {}).get("alt") or {}).get("mc_samples"))}
+            with fam.torch_patched(rand=rand, rand_like=lambda *a, **kk: Vv.clone()):
+                est = life_.build(RelaxEstimator, ["proposal", "func", "mc_samples", "cv", "is_log"], final, alt, lf,
+                                  edit)
+                for _ in range(2 if lf and lf.get("reuse") else 1):
+                    del asked[:]
+                    v = est()
+            return [[fs(x) for x in v.reshape(-1).tolist()], list(v.shape), asked]
+        (v, shp, asked), tw = run(False), (run(True) if self._has_twin(case) else None)
         return {"v": v, "shape": shp, "samples": U.shape[0], "twin": tw and tw[0],
-                "aliased": self._alias_obs(case, logs)}
+                "aliased": self._alias_obs(case, logs), "asked": asked, "want_asked": [list(U.shape)],
+                "fresh": run(False, None)[0] if lf0 else None}
 
     def _req_relax_value(self, case):
         return None
@@ -3398,6 +3908,8 @@ class C19(PropertyCheck):
     def _pred_relax_value(self, case, impl, model):
         par, shape, ks, fs_ = self._rv_norm(case)
         fails = self._pred_twin("RelaxEstimator", case, impl["v"], impl.get("twin"))
+        fails += self._pred_life("RelaxEstimator", case, impl["v"], impl.get("fresh"), impl.get("asked"),
+                                 impl.get("want_asked"))
         if case.get("fp") is not None:
             fs_ = [[fs(alias.value(case["fp"], 0)), fs(alias.value(case["fp"], 1))] for _ in ks]
         hh = self._hist_head(case)
@@ -3424,10 +3936,12 @@ class C19(PropertyCheck):
             return [alias.value(fn, 1 if k == fn["coord"] else 0) for k in range(len(case["theta"]))]
         return [alias.value(fn, 0), alias.value(fn, 1)]
 
-    def _relax_pieces(self, case, twin=False, logs=None):
+    def _relax_pieces(self, case, twin=False, logs=None, lf=None):
         """the per-sample quantities RelaxEstimator combines, each with d/dparameter, obtained from the
-        distribution's own methods under the same draws."""
+        distribution's own methods under the same draws.  lf: the life of the estimator object (the
+        library's REBAR control variate may then be constructed with other coefficients: `self._cv_edit`)"""
         import torch
+        self._cv_edit = None
         logs = logs if logs is not None else {"f": [], "c": []}
         from pydrobert.torch.distributions import LogisticBernoulli, GumbelOneHotCategorical
         N = case["N"]
@@ -3445,7 +3959,8 @@ class C19(PropertyCheck):
             cv = lambda z: (a * torch.sigmoid(z / tau) * wv).sum(-1) + bb * torch.tanh(z / 4).sum(-1)
             if case.get("cvkind") == "rebar":       # the library's own control variate: eta f(softmax(z / temp))
                 from pydrobert.torch.modules import GumbelOneHotCategoricalRebarControlVariate
-                cv = GumbelOneHotCategoricalRebarControlVariate(lambda x: (x * t).sum(-1), tau, a)
+                cv, self._cv_edit = life_.rebar(GumbelOneHotCategoricalRebarControlVariate,
+                                                lambda x: (x * t).sum(-1), tau, a, lf)
             if case.get("fp") is not None:
                 func = self._callback(case, None, "f", twin, logs["f"])
             if case.get("cp") is not None:
@@ -3459,6 +3974,11 @@ class C19(PropertyCheck):
         t = torch.tensor([float(F(x)) for x in case["f"]], dtype=torch.float64)
         func = lambda b: t[b.detach().round().long()]
         cv = self._cvfun(case["cv"])
+        if case.get("cvkind") == "rebar":       # the library's own control variate: eta g(sigmoid(z / temp))
+            from pydrobert.torch.modules import LogisticBernoulliRebarControlVariate
+            a, _, tau = [float(F(x)) for x in case["cv"]]
+            cv, self._cv_edit = life_.rebar(LogisticBernoulliRebarControlVariate,
+                                            lambda x: t[0] + (t[1] - t[0]) * x, tau, a, lf)
         if case.get("fp") is not None:
             func = self._callback(case, None, "f", twin, logs["f"])
         if case.get("cp") is not None:
@@ -3470,19 +3990,41 @@ class C19(PropertyCheck):
         from pydrobert.torch.estimators import RelaxEstimator, StraightThroughEstimator
         logs = {"f": [], "c": []}
 
-        def run(twin):
-            lg, d, U, Vv, func, cv = self._relax_pieces(case, twin, logs)
+        lf0 = case.get("life")
+
+        def run(twin, lf=lf0):
+            lg, d, U, Vv, func, cv = self._relax_pieces(case, twin, logs, lf)
+            edit = self._cv_edit
+            N = case["N"]
+            final = {"proposal": d, "func": func, "mc_samples": N, "cv": cv, "is_log": False}
+            if lf:
+                from pydrobert.torch.distributions import LogisticBernoulli, GumbelOneHotCategorical
+                even = torch.full_like(lg.detach(), 1.0 / lg.numel() if case.get("dist") == "gumbel" else 0.375)
+                alt = {"proposal": (GumbelOneHotCategorical if case.get("dist") == "gumbel" else LogisticBernoulli)(
+                           probs=even),
+                       "func": life_.affine(func, -2.0, 3.0), "cv": life_.affine(cv, 1.5, 0.25), "is_log": True,
+                       "mc_samples": self._alt_n(N, (lf.get("alt") or {}).get("mc_samples"))}
+            else:
+                alt = {}
+            lst = lf and dict(lf, set=[a for a in lf["set"] if a != "cv"])
             with fam.torch_patched(rand=lambda *a, **kk: U.clone(), rand_like=lambda *a, **kk: Vv.clone()):
-                v = RelaxEstimator(d, func, case["N"], cv)()
+                e1 = life_.build(RelaxEstimator, ["proposal", "func", "mc_samples", "cv", "is_log"], final, alt, lf,
+                                 edit)
+                e2 = life_.build(StraightThroughEstimator, ["proposal", "func", "mc_samples", "is_log"],
+                                 {k: x for k, x in final.items() if k != "cv"}, alt, lst)
+                if lf and lf.get("reuse"):
+                    e1(), e2()
+                v = e1()
                 g, = torch.autograd.grad(v.sum(), [lg], allow_unused=True)
                 g = torch.zeros(()) if g is None else g.reshape(-1)[case.get("coord", 0)]
-                v2 = StraightThroughEstimator(d, func, case["N"])()
+                v2 = e2()
                 z = d.rsample([case["N"]])
                 zc = d.csample(d.threshold(z))
             return {"relax": [fs(v.sum().item()), fs(g.item())], "st": fs(v2.sum().item()),
                     "z": [fs(x) for x in z.reshape(-1).tolist()], "zc": [fs(x) for x in zc.reshape(-1).tolist()]}
         out = run(False)
         out["twin"] = run(True) if self._has_twin(case) else None
+        out["fresh"] = run(False, None) if lf0 else None
         out["aliased"] = self._alias_obs(case, logs)
         return out
 
@@ -3535,6 +4077,9 @@ class C19(PropertyCheck):
         tw = impl.get("twin")
         fails = self._pred_twin("RelaxEstimator / StraightThroughEstimator", case,
                                 [impl["relax"], impl["st"]], tw and [tw["relax"], tw["st"]])
+        fr = impl.get("fresh")
+        fails += self._pred_life("RelaxEstimator / StraightThroughEstimator", case, [impl["relax"], impl["st"]],
+                                 fr and [fr["relax"], fr["st"]])
         head = (f"{'GumbelOneHotCategorical' if case.get('dist') == 'gumbel' else 'LogisticBernoulli'}"
                 f"({case.get('param', 'logits')}={case.get('theta', case.get('value', case.get('logit')))})")
         # (a class whose logit is -inf has the relaxed value -inf; every other coordinate is real)
@@ -3571,6 +4116,131 @@ class C19(PropertyCheck):
                 fails.append((f"{head}: StraightThroughEstimator = {impl['st']} is not the sample mean of f(H(z)) = "
                               f"{float(want)!r} (z = {impl['z']})", SIG_STNAN if known else None))
         return fails
+
+    # ---------------------------------------------------------------- parameters edited in place
+    # A distribution object is kept, the tensor it was constructed from is edited in place (an optimiser step
+    # on the logits), and the object is used again.  The library's distributions cache derived attributes the
+    # way torch.distributions does (`lazy_property`).  Whatever the object does with the edit - follow it
+    # (the constructor kept the caller's tensor) or ignore it (it kept a normalised copy) - it must remain ONE
+    # distribution: every observable that of a freshly constructed distribution of the new values, or every
+    # observable that of the old values.
+    def _pe_objects(self, case):
+        """-> (the object with the history, fresh(new values), fresh(old values), the object the torch
+        convention produces: fresh(new) whose lazily derived attribute is the one cached before the edit)"""
+        import torch
+        import pydrobert.torch.distributions as D
+        dt = self._tdtype(case)
+        cls = D.LogisticBernoulli if case["cls"] == "lb" else D.GumbelOneHotCategorical
+        event = 0 if case["cls"] == "lb" else 1
+        t = torch.tensor([fam.fl(x) for x in case["values"]], dtype=dt).reshape(case["shape"])
+        self._edit_t = t
+        obj = self._derive(cls(**{case["param"]: t}), case, event)
+        new = self._fresh_twin(dict(case, values=case["new_values"]), cls, event)
+        old = self._fresh_twin(case, cls, event)
+        conv = self._fresh_twin(dict(case, values=case["new_values"]), cls, event)
+        cross = "logits" if case["param"] == "probs" else "probs"
+        cut = case["history"].index("edit")
+        cached = any(cross in RELAXED_READS.get(op, []) for op in case["history"][:cut])
+        if cached:
+            conv.__dict__[cross] = getattr(old, cross)
+        return obj, new, old, conv, cached
+
+    def _impl_param_edit(self, case):
+        import torch
+        if case["cls"] == "srswor":
+            return self._impl_param_edit_srswor(case)
+        dt = self._tdtype(case)
+        event = 0 if case["cls"] == "lb" else 1
+        batch, nb, nB, n = self._nd_layout(case, event)
+        sample = tuple(case.get("sample") or [])
+        fl = lambda t: [fs(x) for x in t.reshape(-1).tolist()]
+        if event:
+            V = case["shape"][-1]
+            full = list(sample) + batch + [V]
+            U = torch.tensor([[float(F(x)) for x in r] for r in case["us"]], dtype=dt).reshape(full)
+            Vv = torch.tensor([[float(F(x)) for x in r] for r in case["vs"]], dtype=dt).reshape(full)
+            obs = lambda d: self._g_observe(d, case["dtype"], U, Vv, sample, case["ks"])
+        else:
+            full = list(sample) + batch
+            U = torch.tensor([float(F(x)) for x in case["us"]], dtype=dt).reshape(full)
+            Vv = torch.tensor([float(F(x)) for x in case["vs"]], dtype=dt).reshape(full)
+            pexp = [0.5] * n        # (only places the auxiliary draws of `z_ub`; the same for every object)
+            obs = lambda d: self._lb_observe(d, case["dtype"], U, Vv, sample, pexp)
+        obj, new, old, conv, cached = self._pe_objects(case)
+        out = {"cached": cached}
+        for nm, d in (("obj", obj), ("new", new), ("old", old), ("conv", conv)):
+            e, info = obs(d)
+            out[nm] = {"elems": e, **info, "dprobs": fl(d.probs), "dlogits": fl(d.logits)}
+        return out
+
+    def _impl_param_edit_srswor(self, case):
+        import torch
+        from pydrobert.torch.distributions import SimpleRandomSamplingWithoutReplacement as S
+
+        def counts(total, given):
+            return torch.tensor(given).reshape(case["shape"]), torch.tensor(total).reshape(case["shape"])
+        nt, ng = case.get("new_total", case["total"]), case.get("new_given", case["given"])
+        giv, tot = counts(case["total"], case["given"])
+        obj = S(giv, tot, case["out_size"], validate_args=False)
+        torch.manual_seed(case["seed"])
+        cut = case["history"].index("edit")
+        for op in case["history"]:
+            if op == "edit":        # the caller's count tensors, edited in place
+                giv.copy_(counts(nt, ng)[0])
+                tot.copy_(counts(nt, ng)[1])
+            elif op == "expand":
+                obj = obj.expand([2] + list(obj.batch_shape))
+            else:
+                self._srswor_op(obj, op)
+        new, old, conv = [S(*counts(t, g), case["out_size"], validate_args=False)
+                          for t, g in ((nt, ng), (case["total"], case["given"]), (nt, ng))]
+        cached = any("partition" in SRSWOR_READS.get(op, []) for op in case["history"][:cut])
+        if cached:
+            conv.__dict__["log_partition"] = old.log_partition
+        reps = 2 ** sum(1 for op in case["history"] if op == "expand")
+
+        def observe(d, rep):
+            # (log_prob does not look at its argument beyond validation, which is off)
+            x = torch.zeros(list(d.batch_shape) + list(d.event_shape))
+            return {"total": [int(v) for v in d.total_count.reshape(-1).tolist()] * rep,
+                    "given": [int(v) for v in d.given_count.reshape(-1).tolist()] * rep,
+                    "prob": [fs(v) for v in d.log_prob(x).to(torch.float64).exp().reshape(-1).tolist()] * rep,
+                    "mean": [[fs(v) for v in r] for r in d.mean.reshape(-1, d.mean.shape[-1]).tolist()] * rep}
+        return {"cached": cached, "obj": observe(obj, 1), "new": observe(new, reps), "old": observe(old, reps),
+                "conv": observe(conv, reps)}
+
+    def _req_param_edit(self, case):
+        return None
+
+    def _cmp_param_edit(self, case, impl, model):
+        return []
+
+    def _pe_diff(self, case, a, b):
+        """names of the observables in which two objects differ"""
+        if case["cls"] == "srswor":
+            return [k for k in a if a[k] != b[k] and not (k == "prob" and len(a[k]) == len(b[k]) and all(
+                self._fclose(x, y, 1e-5) for x, y in zip(a[k], b[k])))]
+        fails = self._pred_fresh("", dict(a, fresh=b), case["dtype"], vec=case["cls"] == "gumbel")
+        out = []
+        for what, _ in fails:
+            out.append(what.split("`")[1] if "`" in what else what[:40])
+        return out
+
+    def _pred_param_edit(self, case, impl, model):
+        name = {"lb": "LogisticBernoulli", "gumbel": "GumbelOneHotCategorical",
+                "srswor": "SimpleRandomSamplingWithoutReplacement"}[case["cls"]]
+        d_new = self._pe_diff(case, impl["obj"], impl["new"])
+        d_old = self._pe_diff(case, impl["obj"], impl["old"])
+        if not d_new or not d_old:
+            return []
+        # the specific known behaviour (torch's lazy_property convention): everything is the distribution of
+        # the new values except the derived attribute that was cached before the edit, and what reads it
+        known = impl["cached"] and not self._pe_diff(case, impl["obj"], impl["conv"])
+        what = case.get("param", case.get("edit"))
+        return [(f"{name}({what}= a tensor of shape {case['shape']}) after the operations {case['history']} (`edit`: the "
+                 f"tensor it was constructed from is edited in place) is neither the distribution of the new values "
+                 f"(differs in {d_new[:6]}) nor the one of the old values (differs in {d_old[:6]}): its parts "
+                 f"describe different distributions", SIG_STALE if known else None)]
 
     # ---------------------------------------------------------------- malformed constructions
     def _impl_relaxed_ctor(self, case):
@@ -3696,6 +4366,14 @@ class C19(PropertyCheck):
                   f"srswor_seq:expands={case.get('expands')}",
                   f"srswor_seq:out_size={'default' if case['out_size'] is None else 'max' if out == max(tot) else 'beyond'}"]
             t += self._hist_tags(k, case, bool(case.get("expands")))
+        elif k == "param_edit":
+            cut = case["history"].index("edit")
+            what = case.get("param", case.get("edit"))
+            t += [f"param_edit:{case['cls']}/{what}",
+                  f"param_edit:{case['cls']}/derived attribute cached before the edit="
+                  f"{impl.get('cached') if isinstance(impl, dict) else None}",
+                  f"param_edit:expand {'before' if 'expand' in case['history'][:cut] else 'not before'} the edit"]
+            t += [f"param_edit:before the edit: {op}" for op in sorted(set(case["history"][:cut]))]
         elif k == "relax_comb" and case.get("dist") == "gumbel":
             t += [f"relax_comb:gumbel/{case['param']}"]
             if any(fam.is_ninf(x) for x in case["theta"]):
@@ -3714,8 +4392,12 @@ class C19(PropertyCheck):
                       + ("" if al is None else "/shares-storage" if al else "/fresh")]
         if case.get("f_kept"):
             t += [f"callback:{k}/f=view of a table the integrand keeps"]
+        if case.get("life"):
+            t += life_.tags({"st_value": "st", "relax_value": "relax", "relax_comb": "relax"}.get(k, k), case["life"])
         if case.get("is_log"):
             t += [f"{k}:is_log=True"]
+        if case.get("self_normalize"):
+            t += [f"{k}:self_normalize=True"]
         if k in ("direct", "is", "imh", "enumerate"):
             if case.get("layout") == "batch":
                 t += [f"{k}:layout=batch/n={len(case['dist' if k in ('direct', 'enumerate') else 'proposal']['theta'])}"
@@ -3758,6 +4440,9 @@ class C19(PropertyCheck):
             yield dict(case, history=[])
             for i in range(len(h)):
                 yield dict(case, history=h[:i] + h[i + 1:])
+        if case.get("life"):
+            for lf in life_.shrink(case["life"]):
+                yield dict(case, life=lf)
         if k == "srswor_seq" and case.get("expands"):
             yield dict(case, expands=case["expands"][:-1])
         if k in ("direct", "is") and case["N"] > 1:
@@ -3768,6 +4453,8 @@ class C19(PropertyCheck):
             yield dict(case, init_lead=False)
         if case.get("is_log"):
             yield dict(case, is_log=False)
+        if case.get("self_normalize"):
+            yield dict(case, self_normalize=False)
         if k in ("direct", "is", "imh") and case.get("sample_owned"):
             yield dict(case, sample_owned=False)
         if k == "imh" and self._batch(case) and len(case["proposal"]["theta"]) > 1:
